@@ -2,12 +2,13 @@
 
 The REAL nice_udp_turn_socket_new (socket/udp-turn.c) runs in harness/sock_drv.c over a scripted
 datagram base socket; the same `sock turn …` lines go to the Lean model (Nice/Model/Turn.lean).
-Scope of the tie: DRAFT9 and RFC5766 modes over an unreliable base (see the model header).
+Scope of the tie: DRAFT9 and RFC5766 modes (incl. request timers, 401/438 rounds) and the GOOGLE send encoding, over an
+unreliable base (see the model header).
 Implementation-side oracle = an independent TURN relay written here in Python:
   * every datagram the socket writes is decoded as the relay would (Send indication / ChannelData) and
     must carry exactly (peer, payload) of a send that was made, in order per peer, nothing invented;
   * data for a peer without permission is held and appears, completely and in FIFO order, when the
-    CreatePermission answer arrives;
+    CreatePermission answer arrives or the request times out (virtual clock);
   * what the relay forwards (Data indication / ChannelData built HERE) is handed up with exactly the
     payload and that peer as source;
   * no relay datagram (exactly-sized receive buffer) produces a sanitizer report."""
@@ -18,12 +19,13 @@ from checks import C17 as sockchk
 
 MODULE = "Nice.Props.C16"
 THEOREMS = [f"Nice.Props.C16.{t}" for t in (
-    "C16_wrap_decodes", "C16_channeldata_decodes", "C16_unwrap_inverse_partial", "C16_unwrap_channeldata",
-    "C16_held_not_lost", "C16_queue_fifo", "C16_recv_no_fault_partial", "C16_recv_fault_witness")]
+    "C16_wrap_decodes", "C16_channeldata_decodes", "C16_unwrap_inverse", "C16_unwrap_channeldata",
+    "C16_held_not_lost", "C16_timeout_flushes", "C16_queue_fifo", "C16_recv_no_fault")]
 TRUSTED = [
     "Lean 4 kernel; axioms propext, Classical.choice, Quot.sound only (audited every run)",
     "hand-written model Nice/Model/Turn.lean (DRAFT9 / RFC5766, unreliable base) tied to socket/udp-turn.c by the sock_drv `sock turn` "
-    "differential stream; GOOGLE / MSN / OC2007 encodings, the reliable (TURN-over-TCP) re-framing and all timers are outside the model",
+    "differential stream, incl. request timers on the virtual clock and the GOOGLE Send-request encoding; MSN / OC2007 encodings (HMAC), the GOOGLE channel lock, "
+    "the reliable (TURN-over-TCP) re-framing and the 240 s / 540 s refresh timers are outside the model",
     "STUN: the Send indication is modelled byte for byte; CreatePermission / ChannelBind requests and the agent's transaction table are "
     "abstract (sequence numbers); answers are crafted by the harness with libnice's own StunAgent (MESSAGE-INTEGRITY) and their "
     "validation outcome is a model rule — the STUN code itself is covered by C04–C07",
@@ -37,6 +39,11 @@ COOKIE = bytes.fromhex("2112a442")
 
 
 
+KF_PAD3489 = ("udp-turn.c socket_send_message / stunmessage.c stun_message_append (RFC 3489 compatibility): in GOOGLE (and MSN) mode the "
+              "DATA attribute of a Send request is zero-padded to a multiple of 4 and its length field counts the padding: the relay "
+              "forwards payload + padding")
+
+
 def hx(b):
     return b.hex() if b else "-"
 
@@ -46,7 +53,7 @@ def xor(a, b):
     return bytes(x ^ y for x, y in zip(a, b))
 
 
-def relay_decode(d, channels):
+def relay_decode(d, channels, mode="rfc5766"):
     """what a standards-following relay makes of a client datagram: ('send', peer, payload) |
     ('chan', peer, payload) | ('req', method) | None (garbage)"""
     if len(d) >= 4 and 0x40 <= d[0] <= 0x7f:
@@ -54,6 +61,20 @@ def relay_decode(d, channels):
         if len(d) < 4 + ln or ch not in channels:
             return None
         return ("chan", channels[ch], d[4:4 + ln])
+    if mode == "google":
+        if not channels and len(d) >= 20 and d[0:2] == b"\x00\x04" and int.from_bytes(d[2:4], "big") == len(d) - 20:
+            attrs, i = {}, 20
+            while i + 4 <= len(d):
+                at, al = int.from_bytes(d[i:i + 2], "big"), int.from_bytes(d[i + 2:i + 4], "big")
+                if i + 4 + al > len(d) or al % 4:
+                    return None
+                attrs.setdefault(at, d[i + 4:i + 4 + al]); i += 4 + al
+            if attrs.get(0x0f) != bytes.fromhex("72c64bc6") or 0x11 not in attrs or 0x13 not in attrs:
+                return None
+            a = attrs[0x11]
+            peer = (a[1] == 2, a[4:], int.from_bytes(a[2:4], "big"))
+            return ("send", PEERS.index(peer) if peer in PEERS else None, attrs[0x13])
+        return None
     if len(d) >= 20 and d[0] < 0x40 and d[4:8] == COOKIE:
         typ, ln, tx = int.from_bytes(d[0:2], "big"), int.from_bytes(d[2:4], "big"), d[8:20]
         if ln != len(d) - 20 or ln % 4:
@@ -95,13 +116,33 @@ def gen_session(rng, tier):
     """a client life: sends to several peers, permission / channel-bind completions in random order relative to the sends,
     401/438 rounds, relay traffic.  The generator keeps its own (reference) view of what is installed only to build
     meaningful relay traffic; the oracle does not trust it."""
-    compat = rng.choice(["rfc5766", "rfc5766", "draft9"])
+    compat = rng.choice(["rfc5766", "rfc5766", "draft9", "google"])
     L = [f"sock turn new {compat} 0"]
+    if compat == "google":
+        # GOOGLE mode: Send requests (MAGIC-COOKIE, USERNAME, DESTINATION-ADDRESS, OPTIONS, DATA), pass-through receive
+        for _ in range(rng.randrange(3, 25)):
+            r = rng.random()
+            if r < 0.55:
+                k = rng.choice([1, 1, 2, 3])
+                L.append(f"sock turn send {rng.randrange(4)} " + ",".join(hx(rng.randbytes(rng.choice([0, 1, 2, 3, 4, 5, 8, 100, 1201]))) for _ in range(k)))
+            elif r < 0.7:
+                L.append(f"sock turn setpeer {rng.randrange(4)}")
+            elif r < 0.8:
+                L.append(f"sock turn advance {rng.choice([100, 5000, 9000])}")
+            else:
+                d = bytes([rng.randrange(0x40, 0x100)]) + rng.randbytes(rng.randrange(0, 40)) if rng.random() < .8 else rng.randbytes(rng.randrange(0, 19))
+                L.append((f"sock turn dgram {hx(d)}" if rng.random() < .7 else f"sock turn from {rng.randrange(4)} {hx(d)}") if d else "sock turn dgram -")
+        return L
     cp_sent, cb_sent = 0, 0          # requests that went out so far (upper bounds: replies to unknown seq are `bad-op` on both sides)
     chan_of, next_chan = {}, 0x4000
     n = rng.randrange(4, 30 if tier == "quick" else 80)
     for _ in range(n):
         r = rng.random()
+        if rng.random() < 0.12:
+            # the virtual clock advances: request retransmissions (500 ms, 1000 ms, 500 ms) and time-outs
+            L.append(f"sock turn advance {rng.choice([100, 400, 499, 500, 501, 1000, 1500, 2100])}")
+            cp_sent += 1; cb_sent += 1
+            continue
         if r < 0.42:
             peer = rng.randrange(4)
             k = rng.choice([1, 1, 2, 3])
@@ -164,8 +205,10 @@ def hostile_session(rng):
 LINE = re.compile(r"^ret (\S+) up \[(.*?)\] down \[(.*?)\] state (.*)$")
 
 
-def oracle(L, out):
-    """evaluate the property on the implementation's outputs.  returns reason or None"""
+def oracle(L, out, known=None):
+    """evaluate the property on the implementation's outputs.  returns reason or None; deviations that fall in a
+    recorded class are appended to `known` instead"""
+    mode = L[0].split()[3]
     expected = {p: [] for p in range(4)}     # per peer: payloads sent and not yet seen on the wire
     channels = {}                            # channel -> peer, as the RELAY would know them: learnt from CB requests answered ok
     cb_req = {}                              # seq -> (chan, peer)
@@ -185,15 +228,15 @@ def oracle(L, out):
             if ret == "1":
                 expected[peer].append(payload)
         # decode what went down as the relay would
-        for d in re.findall(r"C[PB]\([^)]*\)|[0-9a-f|-]+", downs):
-            if d.startswith("CP("):
+        for d in re.findall(r"R?C[PB]\([^)]*\)|[0-9a-f|-]+", downs):
+            if d.startswith("CP(") or d.startswith("RCP(") or d.startswith("RCB("):
                 continue
             if d.startswith("CB("):
                 seq, ch, peer, auth = d[3:-1].split(",")
                 cb_req[int(seq)] = (int(ch, 16), int(peer))
                 continue
             raw = b"" if d == "-" else bytes.fromhex(d)
-            dec = relay_decode(raw, channels)
+            dec = relay_decode(raw, channels, mode)
             if dec is None:
                 return f"the relay cannot decode a datagram written by the socket: {d[:80]} (after `{line[:60]}`)"
             if dec[0] == "req":
@@ -201,6 +244,10 @@ def oracle(L, out):
             kind, peer, payload = dec
             if peer is None or not expected[peer]:
                 return f"the socket wrote data for a peer nothing was sent to: {d[:80]}"
+            want = expected[peer][0]
+            if mode == "google" and payload != want and len(want) % 4 and payload == want + bytes(-len(want) % 4) and known is not None:
+                known.append((KF_PAD3489, line[:120]))
+                payload = want
             if expected[peer][0] != payload:
                 return (f"payload / order changed on the way to peer {peer}: relay decodes {payload[:16].hex()}… ({len(payload)} bytes), "
                         f"oldest unsent payload is {expected[peer][0][:16].hex()}… ({len(expected[peer][0])} bytes) after `{line[:60]}`")
@@ -251,7 +298,7 @@ def load_corpus():
 def run(tier, seed):
     chk = vlib.Check("C16", tier, seed)
     chk.cov["trusted_base"] = TRUSTED
-    chk.assumptions = ["DRAFT9 / RFC5766 modes, unreliable base socket; no timer fires (retransmission, refresh, expiry)",
+    chk.assumptions = ["DRAFT9 / RFC5766 modes, unreliable base socket; request timers run on the virtual clock, the 240 s / 540 s refresh timers never fire (sessions last < 200 s)",
                        "relay traffic in the tie: datagrams the STUN agent does not take for a message, and well-formed Data indications"]
     st = vlib.std_pipeline(chk, MODULE, THEOREMS)
     diverged, ofail = [], []
@@ -273,6 +320,7 @@ def run(tier, seed):
     S += [L for (L, kind) in H]
     io, mo, errs = sockchk.run_both(exe, S, model=os.path.exists(vlib.model_exe()))
     nval, distinct, ops = 0, set(), {}
+    kpad = []
     for i, s in enumerate(S):
         if io[i] is None:
             o1, rc1, er1 = errs.get(i, ([], 0, ""))
@@ -288,13 +336,18 @@ def run(tier, seed):
                                  "model": mo[i][k][:500] if k < len(mo[i]) else "<none>"})
         else:
             nval += 1
-        why = oracle(s, io[i])
+        why = oracle(s, io[i], kpad)
         if why and len(ofail) < 50:
             ofail.append({"session": [l[:400] for l in s], "impl_out": [x[:300] for x in io[i]][-6:], "why": why})
         for l, o in zip(s, io[i]):
             ops[l.split()[2]] = ops.get(l.split()[2], 0) + 1
             if " down [" in o and not o.split(" down [")[1].startswith("]") or (" up [" in o and not o.split(" up [")[1].startswith("]")):
                 distinct.add(hash((l[:200], o[:200])))
+    if kpad:
+        if KF_PAD3489 in known_texts:
+            chk.known(f"{KF_PAD3489} [{len(kpad)} datagram(s), e.g. `{kpad[0][1]}`]")
+        else:
+            ofail.append({"session": [kpad[0][1]], "why": "GOOGLE mode: the relay decodes payload + zero padding, not the payload"})
     chk.cov["evaluations"] = len(S)
     chk.cov["traces_validated_against_impl"] = nval
     chk.cov["distinct_nontrivial"] = len(distinct)
